@@ -17,6 +17,8 @@ Op descriptors (JSON-able lists), the unit of generation and replay:
   ["delb", bid]                                             mol.del_bond(<bond object bid>)
   ["rmsub", ref, ref, label|None]                           mol.remove_substituent(ref, ref, ap_label=..)
   ["addh", [atom ids] | None]                               mol.add_implicit_hydrogens(*atoms)
+  ["rebond", [bids], "one"|"many"|"extend"]                 mol.append_bond(b) | mol.append_bonds(*bs) | mol.extend_bonds(bs) with bond OBJECTS that exist
+                                                            already (stale handles: bonds deleted earlier; also bonds still in the molecule)
   ["mkview", [refs], "sub"|"cls"|"heavy"]                   mol.substructure(refs) | Substructure(mol, refs) | mol.heavy   (a view that is KEPT)
   ["vread", k]                                              views[k].coords        (the k-th view made so far, whatever happened to the molecule since)
   ["vwrite", k, "assign"|"translate"|"scale"|"transform", seed]   views[k].coords = X | .translate(v) | .scale(f) | .transform(P)
@@ -330,6 +332,23 @@ class Runner:
                                     hs.append(f"{self.atom_ids.get(id(partner), 'e999999')}:{cc}")
                             self.next += 2 * len(new_atoms)
                             token = "addh " + (",".join(hs) or "-")
+                    elif kind == "rebond":
+                        bids, how = op[1], op[2]
+                        bs = [self.bond_objs[b] for b in bids]
+                        if how == "one":
+                            token = f"rebond {bids[0]} {self.spec_tok(bs[0].a1)} {self.spec_tok(bs[0].a2)}"
+                        else:
+                            token = "rebonds " + (",".join(f"{b}+{self.spec_tok(o.a1)}+{self.spec_tok(o.a2)}" for b, o in zip(bids, bs)) or "-")
+                        for o in bs:
+                            for z in (o.a1, o.a2):
+                                if not any(z is a for a in atoms_before) and not any(z is a for a in adopted):
+                                    adopted.append(z)
+                        if how == "one":
+                            m.append_bond(bs[0])
+                        elif how == "many":
+                            m.append_bonds(*bs)
+                        else:
+                            m.extend_bonds(list(bs))
                     elif kind == "mkview":
                         refs, how = op[1], op[2]
                         if how == "heavy":
